@@ -2,6 +2,7 @@
 # usage: tools/mutcheck.sh <patch-file> <ID> [<ID>...]
 # applies the patch to /repo, runs the given checks, reverts the patch. Prints one line per check.
 set -u
+exec 9>/tmp/verif-repo.lock; flock 9   # one user of /repo at a time
 PATCH=$1; shift
 cd /repo || exit 2
 if ! git apply --check "$PATCH" 2>/dev/null; then echo "PATCH-DOES-NOT-APPLY $PATCH"; exit 3; fi
